@@ -33,6 +33,9 @@ func main() {
 		rtCases(os.Args[2:])
 	case "hist":
 		histCases(os.Args[2:])
+	case "calchild": // calibration: process start + warm-up, nothing else
+		childInit()
+		warmUp()
 	case "execchild":
 		execChild(os.Args[2:])
 	case "rtchild":
